@@ -199,6 +199,8 @@ class Engine:
         if ap is None:
             raise OutOfSubset(f"spec for {spec.target} has no apply()", node)
         self.functions.setdefault(spec.target, {"qualname": spec.target, "role": "callee-contract"})
+        if hasattr(it.cx, "applied_specs"):
+            it.cx.applied_specs.append(spec.target)
         return ap(it, args, kwargs)
 
     # --- verification of one spec
@@ -230,6 +232,13 @@ class Engine:
                     if cx.check(z3.BoolVal(True)) == z3.unsat:
                         raise CheckerError(f"vacuous contract: precondition of {spec.target} [{label}] is unsatisfiable")
                     spec.snap(cx, st)
+                    from .models import deep_copy_value
+                    try:
+                        cx.initial = deep_copy_value(it, {"args": tuple(st.get("args", ())), "kwargs": dict(st.get("kwargs", {}))}, {})
+                    except OutOfSubset:
+                        cx.initial = None
+                    cx.final_args = tuple(st.get("args", ()))
+                    cx.applied_specs = []
                     fr = spec.frame(cx, st)
                     wlog = []
                     if fr is not None:
